@@ -57,8 +57,13 @@ def analyse(wd, mode):
         if t[0] == 'step': sched.append(t[1] + t[2])
         if impl[i].startswith('ret') or ' ret ' in impl[i].split(' ## ')[0]: res['rets'] += 1
         if impl[i].startswith('end'): res['phases'] += 1
-        if bad: continue
         sp = spec[i]
+        if bad:
+            # the model already disagreed in this scenario: keep looking for a clause of the property the implementation itself violates
+            if bad == 'differ' and sp.startswith('IMPL-SPEC-FAIL'):
+                bad = 'spec'
+                res['problems'].append((list(cur), i - start, 'impl-violates-spec', 'op=%s | impl=%s | spec=%s' % (o, impl[i][:400], sp[:300]), False))
+            continue
         if sp == 'X': res['out_contract'] += 1
         elif sp == 'OK': res['in_contract'] += 1
         kind = None
@@ -67,7 +72,7 @@ def analyse(wd, mode):
         elif impl[i] != model[i]:
             kind = 'impl-model-differ'
         if kind:
-            bad = True
+            bad = 'spec' if kind == 'impl-violates-spec' else 'differ'
             res['problems'].append((list(cur), i - start, kind, 'op=%s | impl=%s | model=%s | spec=%s' % (o, impl[i][:400], model[i][:400], sp[:300]),
                                     timing_only(impl[i], model[i])))
     close_scn(n)
